@@ -46,6 +46,7 @@ type ColumnDef struct {
 	AutoIncrement bool
 	Null          bool
 	Unique        bool
+	UniqueFirst   bool // both UNIQUE and PRIMARY KEY, in that order. SQLite makes the automatic indexes in the order given.
 	Default       interface{}
 	Collate       string
 	References    *ForeignKeyClause
@@ -79,6 +80,7 @@ func makeColumnDef(name string, typ string, cs []columnConstraint) ColumnDef {
 		case ccNull:
 			cd.Null = bool(v)
 		case ccPrimaryKey:
+			cd.UniqueFirst = cd.Unique && !cd.PrimaryKey
 			cd.PrimaryKey = true
 			cd.PrimaryKeyDir = SortOrder(v.sort)
 			cd.AutoIncrement = v.autoincrement
@@ -163,6 +165,11 @@ func newIndexColumn(e Expression, collate string, sort SortOrder) IndexedColumn 
 	ex := ""
 	if col == "" {
 		ex = AsString(e)
+	}
+	if _, ok := e.(ExBinaryOp); ok {
+		// COLLATE binds stronger than any binary operator: it's part of the
+		// last operand, and not the collate of the indexed value.
+		collate = ""
 	}
 	return IndexedColumn{
 		Column:     col,
